@@ -678,7 +678,7 @@ fn server_engine(rep: &Report, seed: u64, tier: Tier) {
                 let correct = f[(a as usize).min(f.len())..(a as usize + len).min(f.len())].to_vec();
                 match how {
                     h if h >= 13 && hl[h as usize - 13].0.starts_with("endless chain") => {
-                        Action::Raw(format!("HTTP/1.1 302 Found\r\nLocation: /hop/{}/a.cba\r\nContent-Length: 0\r\n\r\n", req.n + 1).into_bytes())
+                        Action::Raw(format!("HTTP/1.1 302 Found\r\nLocation: /hop/{}/a.cba\r\nContent-Length: 0\r\nConnection: close\r\n\r\n", req.n + 1).into_bytes())
                     }
                     h if h >= 13 => Action::Raw(header_lie_response(&hl[h as usize - 13], &correct)),
                     11 => Action::Custom { status: 206, declared_len: Some(1 << 62), body: correct },
